@@ -9,11 +9,15 @@
   C11.d tombstone        (shared with C10.c) in delete, the cursor offset is tested (`ok_or(VoidRecord)?`) before any destructive event and
                          before any unwrap/expect of it: a second deletion through the same cursor returns VoidRecord, it neither touches
                          the packet nor panics
+  C11.e classification   current_section answers only sections rrcount_dec has an arm for, each non-Question verdict guarded by
+                         `offset >= <start offset of that section>` (sibling agreement between classifier and count helpers)
   C11.c termination      = C03.a: advances and rrs_left decrements are paired on every path (rrs_left strictly decreases
                          between re-initialisations, each of which follows a count decrement)
 
 Not decided: which records survive / are yielded for every deletion pattern (a run-time sequence property).
 """
+import re
+
 from analysis import facts as F
 from analysis.cfg import PathFlow, Automaton
 from analysis.pkt import PP
@@ -178,12 +182,75 @@ def delete_protocol_rule(ctx, facts, cfg, rid):
                           path=flow.describe_path(key, w), config=cfg)
 
 
+def classification_rule(ctx, facts, cfg, rid):
+    """current_section(): (1) every Section it can return is one the count helpers handle without panicking (sibling agreement with
+    rrcount_dec's match), (2) each non-Question verdict is dominated by `offset >= <that section's start offset>`."""
+    sect = {int(v['discr']): v['name'] for v in facts.adts.get('constants::Section', {}).get('variants', [])}
+    dec = facts.fn('parsed_packet::ParsedPacket::rrcount_dec')
+    if dec is None:
+        ctx.missing(rid, 'parsed_packet::ParsedPacket::rrcount_dec')
+        return
+    ddefs = F.single_defs(dec)
+    handled = None
+    for bi, b in F.blocks(dec):
+        t = b['term']
+        if t['k'] == 'switch':
+            e = F.expr(dec, ddefs, t['discr'])
+            if e[0] == 'discr' and e[1].get('local') == 2:
+                hs = {sect.get(v) for v, _ in t['targets']}
+                handled = hs if handled is None else handled & hs
+    if not handled:
+        ctx.violation(rid, 'parsed_packet::ParsedPacket::rrcount_dec', 'no-match', 'no match on the section argument found in rrcount_dec', kind='undecided', config=cfg)
+        return
+    keys = facts.inst_keys('rr_iterator::TypedIterable::current_section')
+    if len(keys) < 2:
+        ctx.violation(rid, '<floor>', 'current_section instances', 'found %d instantiations of current_section, expected 2' % len(keys), kind='below-floor')
+    for key in keys:
+        f = facts.fns[key]
+        defs = F.single_defs(f)
+        dom = F.dominators(f)
+        # blocks entered on the true edge of `offset() >= pp.<field>`
+        ge_true = {}
+        for bi, b in F.blocks(f):
+            t = b['term']
+            if t['k'] != 'switch':
+                continue
+            e = F.expr(f, defs, t['discr'])
+            if e[0] == 'call' and e[1] in ('std::cmp::PartialOrd::ge', 'std::cmp::PartialOrd::gt') and len(e[2]) == 2:
+                l_, r_ = e[2]
+                lr = F.roots_place(f, defs, l_[1]) if l_[0] in ('ref', 'load') else []
+                fld = F.last_field(r_[1]) if r_[0] in ('ref', 'load') else None
+                if lr and all(x[0] == 'call' and re.search(r'DNSIterable>?::offset$', str(x[1])) for x in lr) and fld and fld[0] == PP:
+                    tb = t['otherwise'] if all(v == 0 for v, _ in t['targets']) else next((bb for v, bb in t['targets'] if v == 1), None)
+                    if tb is not None:
+                        ge_true[tb] = fld[1]
+        verdicts = []
+        for bi, b in F.blocks(f):
+            for st in b['stmts']:
+                if st['k'] == 'assign' and st['rv']['k'] == 'aggregate' and st['rv'].get('adt') == 'constants::Section':
+                    verdicts.append((bi, st['rv'].get('variant'), st.get('at')))
+        for bi, v, at in verdicts:
+            ok1 = v in handled
+            want = SECTION_OFFSET.get(v)
+            guards = {fld for tb, fld in ge_true.items() if tb == bi or tb in dom.get(bi, ())}
+            ok2 = v == 'Question' or (want is not None and want in guards)
+            ctx.instance(rid, '%s: verdict Section::%s is handled by rrcount_dec and guarded by offset >= %s' % (key.split('@')[-1], v, want or '-'), ok=ok1 and ok2, site=at)
+            if not ok1:
+                ctx.violation(rid, key, 'unhandled-section:' + str(v), 'current_section can answer Section::%s, for which rrcount_dec (and the match in delete) has no arm but a panic: deleting such a record '
+                              'removes its bytes and then panics, leaving the count untouched' % v, site=at, config=cfg)
+            elif not ok2:
+                ctx.violation(rid, key, 'guard:' + str(v), 'the verdict Section::%s is not dominated by `offset >= %s` (guards found: %s)' % (v, want, sorted(guards)), site=at, config=cfg)
+        if len(verdicts) < 4:
+            ctx.violation(rid, key, 'verdicts', 'found %d Section verdicts in current_section, expected 4' % len(verdicts), kind='below-floor', config=cfg)
+
+
 def run(ctx):
     for cfg in ctx.configs():
         facts = ctx.facts(cfg)
         sect_disc = {v['name']: int(v['discr']) for v in facts.adts.get('constants::Section', {}).get('variants', [])}
         # ---------------------------- C11.a ------------------------------------
         delete_protocol_rule(ctx, facts, cfg, 'C11.a')
+        classification_rule(ctx, facts, cfg, 'C11.e')
         # ---------------------------- C11.d ------------------------------------
         from rules import C10
         from analysis.pkt import PacketEvents
